@@ -220,4 +220,26 @@ CHECKS = {
              "outside": "more than 3 peers / 2 missing headers; lies that are not provable from the block (majority heuristics); the cfHandler goroutine's waiting logic; checkpoint conflict resolution across peers (checkCFCheckptSanity/resolveConflict are only covered by the repository's own tests)"},
         ],
     },
+    "C15": {
+        "assumptions": COMMON_ASSUMPTIONS + [
+            "the Broadcast callback is a recorder with a scripted outcome per transaction (accepted / already in mempool / invalid); block events are delivered on the subscription channel by the harness and each rebroadcast runs to completion before the next event (run-to-block scheduling): 'a rebroadcast still running' is therefore not exercised; interval ticks are not fired (timer budget 0), a block event exercises the same trigger",
+            "sendTransaction's queryAllPeers is replaced by a source overlay with a stub delivering each peer's scripted getdata/reject messages to the real closure; a reject only follows a getdata from the same peer; default threshold 0.6; up to 5 interchangeable peers",
+        ],
+        "groups": [
+            {"name": "handler", "pkg": "pushtx", "harness_dir": "pushtx", "harness": "VerifH_C15_handler",
+             "inits": ["github.com/lightninglabs/neutrino/pushtx", "github.com/lightninglabs/neutrino/blockntfns",
+                       "github.com/btcsuite/btcd/wire/v2", "github.com/btcsuite/btcd/chainhash/v2", "io", "bytes"],
+             "anchored_files": ["pushtx/broadcaster.go", "pushtx/error.go"],
+             "params": {"events": 4}, "thorough": {"params": {"events": 5}},
+             "must_reach": {"VerifH_C15_handler": ["accepted", "rejected", "block", "confirmed", "parent-and-child-pending", "mark-confirmed-after-stop-returned"]},
+             "outside": "more than 4 (5) events, more than 3 transactions, rebroadcasts overlapping with later events, real timers"},
+            {"name": "verdict", "pkg": ".", "harness_dir": "root", "common": ["walletdb", "stores", "pow"], "harness": "VerifH_C15_verdict",
+             "transforms": [("query.go", r"s\.queryAllPeers\(", "vpQueryAllPeersHook(s)(", 1)],
+             "inits": ROOT_INITS, "anchored_files": ["query.go", "pushtx/error.go"],
+             "params": {"maxpeers": 5},
+             "no_native_replay": "uses the engine's *peer.Peer recorder",
+             "must_reach": {"VerifH_C15_verdict": ["expect-failure", "expect-success", "share-exactly-at-threshold"]},
+             "outside": "more than 5 peers, thresholds other than the default, the real queryAllPeers goroutines and timers"},
+        ],
+    },
 }
